@@ -104,13 +104,13 @@ UNIT = {
         {"kind": "impl", "file": I, "impl": r"^impl<'a, R: RealNumberInternalTrait> Interpreter<'a, R>$",
          "methods": {"eval_import": {"props": ["C12", "C07"],
              "attrs": "#[verifier::loop_isolation(false)]",
-             "bind": {"DEFS": (r"let mut (\w+) = HashMap::new\(\);", "definitions")},
+             "bind": {"DEFS": (r"let mut (\w+) = HashMap::new\(\);", "definitions"), "IMP": (r"for (\w+) in &imports\.0", "import")},
              "sig_rewrites": [("S1", r"\) -> Result<\(\)>$", ") -> (r: Result<()>)", 1, "S")],
              "rewrites": [
                  ("X3s", r"let mut ${DEFS} = HashMap::new\(\);", "let mut ${DEFS} = std_new_defmap();"),
                  # the argument of extend is the real text (captured)
                  ("X3s", r"${DEFS}\.extend\(((?:[^()]|\((?:[^()]|\([^()]*\))*\))+)\.into_iter\(\)\);", r"std_map_extend(&mut ${DEFS}, \1);", 1),
-                 ("L1", r"for import in &imports\.0 \{", "for import in imports.0.iter() {"),
+                 ("L1", r"for ${IMP} in &imports\.0 \{", "for ${IMP} in imports.0.iter() {"),
                  ("X3s", r"for \((\w+), (\w+)\) in ${DEFS} \{", r"for entry in std_map_entries(${DEFS}) { let (\1, \2) = entry;", 1),
              ],
              "loops": {
@@ -118,7 +118,7 @@ UNIT = {
                 it1.seq().len() == imports.0@.len(),
                 forall|i: int| 0 <= i < imports.0@.len() ==> *it1.seq()[i] == imports.0@[i],
                 union_of(imports.0@, it1.index() as int, defs_view(${DEFS})),""",
-                     "body_start": "            proof { assert(*import == imports.0@[it1.index() as int]); }"},
+                     "body_start": "            proof { assert(*${IMP} == imports.0@[it1.index() as int]); }"},
                  2: {"expect_kw": "for", "iter_name": "it2", "invariant": """            invariant
                 forall|i: int| 0 <= i < it2.index() ==> was_defined(*env, (#[trigger] it2.seq()[i]).0@, it2.seq()[i].1),"""},
              },
